@@ -46,6 +46,8 @@ def gen_cases(tier, seed):
                        # third loop exit: the time budget (already exhausted / exhausted at once / generous); decided after a sweep, so
                        # a run always performs at least one and reports exactly what it performed
                        "stoptime": [None, None, None, 0.0, -1.0, 1e6][int(rng.integers(0, 6))],
+                       # counts as they come out of a counting process: integer element types; a guess near the generating model
+                       "store": [None, None, "int64", "int32", "uint8", None][int(rng.integers(0, 6))], "good_guess": bool(rng.integers(0, 3) == 0),
                        "cseed": int(seed) * 67867967 + next(cs)}
 
 
@@ -81,10 +83,15 @@ def run_case(case, ctx):
     if case["zero_row"]:
         M0.factor_matrices[0][0, :] = 0
     alg, rep = case["alg"], case["rep"]
-    D = ttb.tensor(X.copy())
+    store = case.get("store")
+    if case.get("good_guess"):
+        # a guess that is already close to the generating model: "at least as likely as the guess" is then a sharp requirement
+        M0 = ttb.ktensor([f * (1.0 + 0.02 * rng.standard_normal(f.shape)) for f in Ktrue.factor_matrices], Ktrue.weights.copy())
+    D = ttb.tensor(X.copy() if not store else X.astype(store))
     if rep == "sparse":
         nnz = int(np.count_nonzero(X))
-        D = gen.mk_sptensor(ttb, X, gen.stored_order(rng, nnz, "shuffled"))
+        D = gen.mk_sptensor(ttb, X if not store else X.astype(store), gen.stored_order(rng, nnz, "shuffled"), dtype=(np.dtype(store) if store else None))
+    ctx.feat(store=str(store), good_guess=bool(case.get("good_guess")))
     ddig = state_digest(D)
     ctx.feat(alg=alg, rep=rep, zero_row=case["zero_row"], empty_slice=case["empty_slice"], R=R, N=N, precompinds=case["precompinds"],
              inexact=case["inexact"], lbfgsMem=case["lbfgsMem"], maxinneriters=case["maxinneriters"])
@@ -116,6 +123,17 @@ def run_case(case, ctx):
             return
         neg = bool((M.weights < 0).any()) or any(bool((f < 0).any()) for f in M.factor_matrices)
         ctx.check(not neg, "cp_apr", "NEGATIVE", "negative weight or factor entry in the returned model")
+        if store and mi == 3 and case.get("stoptime") is None:
+            # the same counts held as float64 give the same model: the element type of the data is presentation
+            Df = ttb.tensor(X.copy())
+            if rep == "sparse":
+                Df = ttb.sptensor(np.asarray(D.subs).copy(), np.asarray(D.vals).astype(float), shape)
+            rf = ctx.call("cp_apr", _quiet, ttb.cp_apr, Df, R, init=M0.copy(), maxiters=mi, **opts)
+            if rf.ok:
+                a_, b_ = denote(M), denote(rf.value[0])
+                sc_ = max(float(np.max(np.abs(b_))), 1e-300)
+                ctx.check(bool(np.max(np.abs(a_ - b_)) <= 1e-9 * sc_), "cp_apr", "STORAGE-TYPE-MATTERS",
+                          lambda: f"{store} counts and the same counts as float64 give different models (max diff {np.max(np.abs(a_ - b_)):.3e})")
         ll = loglik(X, denote(M))
         obj = float(np.asarray(out["obj"]).reshape(-1)[0])
         ctx.check(bool(np.isclose(obj, ll, rtol=1e-8, atol=1e-8)), "cp_apr", "WRONG-OBJECTIVE", f"reported obj {obj!r} vs recomputed log-likelihood {ll!r}", maxiters=mi)
